@@ -39,17 +39,20 @@ Qed.
 
 (** what a trial showing [di] says about the cells *)
 Lemma shown_cell s q c di t f l :
-  onehot fb s q -> Forall (fun g => isact fb g = true) c -> In di (crossing_combos fb c) -> t < T fb ->
-  cbit fb s di t = true -> In (f, l) di -> isact fb f = true /\ l < nlevels fb f /\ get_cell q f t = Some l.
+  onehot fb s q -> Forall (fun g => isact fb g = true) c -> Forall (fun g => lappl fb g t = true) c ->
+  In di (crossing_combos fb c) -> t < T fb ->
+  cbit fb s di t = true -> In (f, l) di ->
+  isact fb f = true /\ l < nlevels fb f /\ get_cell q f t = Some l /\ lappl fb f t = true.
 Proof.
-  intros Ho Hc Hdi Ht Hsh Hin. destruct (combos_spec fb HF1 HT c di Hdi) as [A B].
-  assert (Hf : isact fb f = true).
-  { apply (proj1 (Forall_forall _ _) Hc). rewrite <- A. now apply (in_map fst di (f, l)). }
+  intros Ho Hc Hac Hdi Ht Hsh Hin. destruct (combos_spec fb HF1 HT c di Hdi) as [A B].
+  assert (Hfc : In f c) by (rewrite <- A; now apply (in_map fst di (f, l))).
+  assert (Hf : isact fb f = true) by exact (proj1 (Forall_forall _ _) Hc f Hfc).
+  assert (Hap : lappl fb f t = true) by exact (proj1 (Forall_forall _ _) Hac f Hfc).
   pose proof (proj1 (Forall_forall _ _) B (f, l) Hin) as Hl. cbn [fst snd] in Hl.
-  split; [exact Hf|]. split; [exact Hl|].
+  split; [exact Hf|]. split; [exact Hl|]. split; [|exact Hap].
   unfold cbit in Hsh. rewrite forallb_forall in Hsh. specialize (Hsh (f, l) Hin). cbn [fst snd] in Hsh.
-  destruct Ho as (_ & _ & Hcell & Hbit & _). rewrite (Hbit t f l Ht Hf Hl) in Hsh.
-  destruct (Hcell t f Ht Hf) as (l0 & _ & El0). rewrite El0 in *. rewrite is_level_some in Hsh.
+  destruct Ho as (_ & _ & Hcell & Hbit & _). rewrite (Hbit t f l Ht Hf Hap Hl) in Hsh.
+  destruct (Hcell t f Ht Hf Hap) as (l0 & _ & El0). rewrite El0 in *. rewrite is_level_some in Hsh.
   apply Nat.eqb_eq in Hsh. now subst.
 Qed.
 
@@ -59,7 +62,7 @@ Theorem no_excluded_shown s q :
   forallb (fun p => factor_ok (code_sem fb) q (fst p) (snd p)) (index_list (s_factors (code_sem fb))) = true ->
   NoExcl fb s.
 Proof.
-  intros Ho Hex Hfo c di t Hc Hdi Ht Hsh.
+  intros Ho Hex Hfo c di t Hc Hac Hdi Ht Hsh.
   cbn [code_sem s_factors] in Hfo.
   rewrite (forallb_index_map_ds (fun f fd => code_factor fb f fd) (fun f d => factor_ok (code_sem fb) q f d) (fl_design fb)) in Hfo.
   unfold is_excluded_or_inconsistent, is_excluded_combination.
@@ -69,29 +72,33 @@ Proof.
     apply not_true_is_false. intros H. apply existsb_exists in H. destruct H as ([f l] & Hp & Hl).
     unfold level_is in Hl. cbn [fst snd] in Hl.
     destruct (lookup_level di f) as [l'|] eqn:El; [|discriminate]. apply Nat.eqb_eq in Hl. subst l'.
-    destruct (shown_cell s q c di t f l Ho Hc Hdi Ht Hsh (lookup_in di f l El)) as (Hf & Hlv & Ecell).
+    destruct (shown_cell s q c di t f l Ho Hc Hac Hdi Ht Hsh (lookup_in di f l El)) as (Hf & Hlv & Ecell & Hap).
     specialize (Hex (f, l) Hp). cbn [fst snd] in Hex. unfold Pexclude in Hex.
-    apply ntrue_all_false in Hex. unfold F1Kinds.col in Hex. rewrite Nat.sub_0_r in Hex.
-    rewrite Forall_map in Hex. pose proof (proj1 (Forall_forall _ _) Hex t ltac:(apply in_seq; lia)) as Hb.
-    cbv beta in Hb. destruct Ho as (_ & _ & _ & Hbit & _). rewrite (Hbit t f l Ht Hf Hlv), Ecell, is_level_some, Nat.eqb_refl in Hb.
+    apply ntrue_all_false in Hex. unfold F1Kinds.col in Hex.
+    rewrite Forall_map in Hex.
+    pose proof (proj1 (Forall_forall _ _) Hex t (proj2 (in_trials_of fb f 0 (T fb) t) (conj (conj (Nat.le_0_l _) Ht) Hap))) as Hb.
+    cbv beta in Hb. destruct Ho as (_ & _ & _ & Hbit & _). rewrite (Hbit t f l Ht Hf Hap Hlv), Ecell, is_level_some, Nat.eqb_refl in Hb.
     discriminate.
   - (* a derived level no compatible argument tuple satisfies *)
     apply not_true_is_false. intros H. apply existsb_exists in H. destruct H as ([f l] & Hp & Hbad). cbn [fst snd] in Hbad.
     unfold factor_at in Hbad. destruct (nth_error (fl_design fb) f) as [fd|] eqn:Efd; [|discriminate].
     destruct (ff_window fd) as [w|] eqn:Ew; [|discriminate].
-    destruct (ff_complex fd); [discriminate|]. apply negb_true_iff in Hbad.
-    destruct (shown_cell s q c di t f l Ho Hc Hdi Ht Hsh Hp) as (Hf & Hlv & Ecell).
+    destruct (ff_complex fd) eqn:Hcx; [discriminate|]. apply negb_true_iff in Hbad.
+    destruct (shown_cell s q c di t f l Ho Hc Hac Hdi Ht Hsh Hp) as (Hf0 & Hlv & Ecell & _).
+    assert (Hf : sact fb f = true).
+    { apply (sact_split fb). split; [exact Hf0|]. unfold is_complex, factor_at. now rewrite Efd. }
     pose proof (proj1 (factor_ok_f1 fb HF1 HT s q f fd Ho Efd Hf) (Hfo f fd Efd) w Ew t l Ht Ecell) as Hacc.
     rewrite (accepts_level_accepts fb HF1 s q f fd w t l Ho Efd Ew Hf Ht) in Hacc.
     assert (Hin : In (map (lev q t) (win_deps w))
                      (product (map (fun d => match lookup_level di d with Some x => [x] | None => seq 0 (nlevels fb d) end)
                                    (win_deps w)))).
     { apply in_product_gen. intros d Hd. destruct (lookup_level di d) as [x|] eqn:Ed.
-      - destruct (shown_cell s q c di t d x Ho Hc Hdi Ht Hsh (lookup_in di d x Ed)) as (_ & _ & Ec).
+      - destruct (shown_cell s q c di t d x Ho Hc Hac Hdi Ht Hsh (lookup_in di d x Ed)) as (_ & _ & Ec & _).
         unfold lev. rewrite Ec. now left.
       - destruct (f1_tables_facts fb HF1 f fd w Efd Ew Hf) as [Hdeps _].
         pose proof (proj1 (Forall_forall _ _) Hdeps d Hd) as Hdn. cbv beta in Hdn.
-        destruct Ho as (_ & _ & Hcell & _). destruct (Hcell t d Ht Hdn) as (x & Hx & Ex).
+        destruct (sact_lappl fb HF1 d t Hdn) as [Hda Hdl].
+        destruct Ho as (_ & _ & Hcell & _). destruct (Hcell t d Ht Hda Hdl) as (x & Hx & Ex).
         unfold lev. rewrite Ex. apply in_seq. lia. }
     assert (Hex' : existsb (level_accepts fd l)
                      (product (map (fun d => match lookup_level di d with Some x => [x] | None => seq 0 (nlevels fb d) end)
